@@ -5,10 +5,10 @@ package trace
 import (
 	"html"
 	"io"
-	"strings"
 	"net/http"
 	"net/http/httputil"
 	"net/url"
+	"strings"
 
 	zzv "github.com/issue9/mux/v9/internal/zzverif"
 )
